@@ -352,6 +352,10 @@ impl BodyReader {
 
         // for head in headers {
         if let Some(value) = header_lookup("content-length") {
+            // parse::<u64>() is too lenient, it accepts a leading +.
+            if !value.bytes().all(|b| b.is_ascii_digit()) {
+                return Err(Error::BadContentLengthHeader);
+            }
             let v = value
                 .parse::<u64>()
                 .map_err(|_| Error::BadContentLengthHeader)?;
